@@ -155,7 +155,7 @@ theorem ex_hyps : ProtoStruct exTy ∧ exTy.wf ∧ exTy.hasTy exVal ∧ (marshal
   refine ⟨⟨⟨_, _, rfl⟩, ?_, ?_⟩, ?_, ?_, by decide +kernel⟩
   · simp [exTy, protoOnly, protoOnlyL]
   · simp [exTy, Ty.rtShape, fieldsRtShape, Ty.isPtr, Ty.keySafe]
-  · simp [exTy, Ty.wf, fieldsWf, validWidth, Ty.wt, Ty.isMap]
+  · simp [exTy, Ty.wf, fieldsWf, validWidth, Ty.wt, Ty.isMap, Ty.isProtoSlice]
   · simp [exTy, exVal, Ty.hasTy, fieldsHaveTy, intRange, keysDistinct, Val.beq]
 
 example : ProtoWF exTy (marshal exTy exVal) = true :=
@@ -193,7 +193,7 @@ theorem df_hyps : (Ty.struct "R" dfFs).wf ∧ Ty.rtShape false (toProto (.struct
     ∧ (Ty.struct "R" dfFs).hasTy dfVal
     ∧ (marshal (toProto (.struct "R" dfFs)) dfVal).length < 2 ^ 63 := by
   refine ⟨?_, ?_, ?_, by decide +kernel⟩
-  · simp [dfFs, Ty.wf, fieldsWf, validWidth, Ty.wt, Ty.isMap]
+  · simp [dfFs, Ty.wf, fieldsWf, validWidth, Ty.wt, Ty.isMap, Ty.isProtoSlice]
   · simp [dfFs, toProto, ProtoP.toProto, ProtoP.toProtoL, Ty.rtShape, fieldsRtShape, Ty.isPtr, Ty.keySafe]
   · simp [dfFs, dfVal, Ty.hasTy, fieldsHaveTy, intRange, keysDistinct]
 
@@ -214,7 +214,7 @@ def swTy : Ty :=
 def swVal : Val :=
   .struct [.int 9, .time zeroTimeSec 0, .ptr none, .slice [], .str [120], .slice []]
 
-theorem sw_wf : swTy.wf := by simp [swTy, Ty.wf, fieldsWf, validWidth, Ty.wt, Ty.isMap]
+theorem sw_wf : swTy.wf := by simp [swTy, Ty.wf, fieldsWf, validWidth, Ty.wt, Ty.isMap, Ty.isProtoSlice]
 
 example : marshal (mapTime true swTy) swVal = marshal swTy swVal :=
   switch_time_local true swTy swVal sw_wf (by decide +kernel)
